@@ -22,7 +22,8 @@ other index, and "the search goes on" is expressed on the run with `g` (which ma
 returns` is built into the model (`Proc.solve` is a total function).  The clause about `items` is up to the characteristics
 `R` (`Ctl.eraseR`) for the reason explained in `C16.lean`.  Sequences of `DoGlobalIteration` calls are written as in
 `IOptProps/C11.lean`: `runOps p f refine (bs.map Op.iter ++ [Op.solve]) {}`; "the batches do not raise" is
-`iterN p g bs.sum {} = .ok _` (over an ordered field with a total objective this always holds, `IOptProofs/ProcessField.lean`).
+`iterN p g bs.sum {} = .ok _` (over an ordered field with the laws of the library functions and a total `g` this always
+holds: `Proc.iterN_total` in `IOptProofs/ComposeRun.lean`; for a general numeric type `CalculateIterationPoint` may raise).
 -/
 
 set_option linter.unusedSectionVars false
